@@ -300,6 +300,15 @@ class Tensor:
     def le(self, o):
         return self.cmp('<=', o)
 
+    def isclose(self, o, rtol=1e-05, atol=1e-08, equal_nan=False):
+        return self.zipw(o, lambda a, b: s_cmp('<=', s_abs(s_sub(a, b)), s_add(atol, s_mul(rtol, s_abs(b)))))
+
+    def expand_as(self, o):
+        return self.expand_to(o.shape)
+
+    def type_as(self, o):
+        return self
+
     def logical_or(self, o):
         return self.zipw(o, lambda a, b: s_or(as_bool(a), as_bool(b)))
 
